@@ -50,13 +50,13 @@ def run(ctx):
                 wf_kinds[w.split(":")[0]] = wf_kinds.get(w.split(":")[0], 0) + 1
             oracle_fail.append({"why": "; ".join(c["wf"]), "xml": it["xml"], "out": it["reply"]["v"], "lines": it["lines"]})
         texts, attrs = canon_run.raw_pieces(it["reply"]["v"])
-        for raw in texts + attrs:
-            if any(ch in raw for ch in "&⁡⁢⁣⁤"):
+        for raw, is_attr in [(t, False) for t in texts] + [(a, True) for a in attrs]:
+            if any(ch in raw for ch in "&⁡⁢⁣⁤\n\r\t"):
                 un = canon_run.xml_unescape(raw)
                 if un is None:
                     oracle_fail.append({"why": "a text/attribute value does not parse back", "xml": it["xml"], "out": it["reply"]["v"], "lines": it["lines"], "raw": raw})
                     continue
-                esc_reqs.append({"op": "escape", "text": un})
+                esc_reqs.append({"op": "escape_attr" if is_attr else "escape", "text": un})
                 esc_items.append((raw, un, it))
     # the string parses back to the same tree: attribute values and texts with special characters survive (compare with the input's)
     n_attr_roundtrip = 0
